@@ -187,6 +187,11 @@ package common
 //@        && forall(j, index + 1, len(locInfoList.VarVec),
 //@            !locBefore(locInfoList.VarVec[j].Loc.StartLine, locInfoList.VarVec[j].Loc.StartColumn, loc.StartLine, loc.StartColumn))
 //@   loop for:index>=0 decreases index + 1
+// the enclosing scopes are searched next, for the same request at the same cursor: what precedes the cursor in an outer
+// scope -- also after the start of this scope -- is offered, what follows it is not
+//@   at call GetCompleteVar#0 before assert[outer-scopes-are-searched-at-the-cursor] arg0 == scope.Parent && arg1 == completeVar && streq(arg2, fileName)
+//@        && arg3.StartLine == loc.StartLine && arg3.StartColumn == loc.StartColumn && arg3.EndLine == loc.EndLine && arg3.EndColumn == loc.EndColumn && arg4 == cache
+//@   ensures[outer-scopes-are-searched] scope.Parent != nil ==> hits("GetCompleteVar#0") == 1
 // completeness over one scope: every name of the scope is considered; a name that passes the prefix filter, is not
 // already offered by an inner scope and has a declaration at or before the cursor IS offered (exactly once); the
 // search for the declaration stops early only when one was offered
